@@ -508,7 +508,7 @@ func (ck *checker) labelBaseline() {
 const propRule = "drawn role/timer tables and input script (proposals, votes, duplicates, equivocation, early next-height and overtaking messages; 1-3 heights) run unstopped on the real driver+state machine+walstore, then stopped at enumerated points (quick: <=10 drawn points per case, one of them inside a commit callback when the script commits, four more non-trivial; thorough: every point): hard kill before/after each effect (crash image); orderly shutdown = context cancelled while idle before a script position, or in the middle of a call before each effect / after the last effect of a call, Run returns and Close() flushes (a commit callback entered after the cancel persists or not, both); commit listener holds the hand-over and the shutdown arrives while the callback is blocked (OnCommit false, block not persisted); block writer reports a persist error (OnCommit false, Run returns an error, Close()). The process is restarted on the resulting directory at (blocks persisted by the harness's block store)+1 and fed the rest of the script (delivered-but-not-durable inputs re-delivered or lost by draw); in 30% of the experiments (thorough: all) the recovering process is stopped too at a drawn effect (kill, 2 in 10 shutdown, 3 in 10 inside a commit callback when it commits) and recovered again; non-trivial = kill between a Flush and the broadcast/commit it covers, between OnCommit and the prune flush, stop while the node is proposer of its current round, shutdown with a commit callback still ahead in the call, stop inside a commit callback (held hand-over or persist error), or second stop during replay"
 
 func TestPropCrashRecovery(t *testing.T) {
-	crashRecovery(t, stats.Budget{Quick: 300, Thorough: 500}, false)
+	crashRecovery(t, stats.Budget{Quick: 1000, Thorough: 1000}, false)
 }
 
 // TestRaceCrashRecovery: the same property on a binary built with -race (the driver shares its
